@@ -26,9 +26,9 @@ type coreScenario struct {
 }
 
 type coreResult struct {
-	completed bool
-	endMs     int64
-	sim       *simCore
+	completed  bool
+	endMs      int64
+	sim        *simCore
 	nontrivial bool
 }
 
